@@ -98,6 +98,7 @@ Cases == {"lower", "UPPER", "MiXed"}
 Spacing == {"tight", "spaces", "newlines"}
 Prologues == {"doctype", "html-head", "doctype-comment-fake", "doctype-script-fake", "doctype-title-fake",
               "doctype-other-meta", "doctype-content-without-equiv", "ws-doctype",
+              "doctype-latin-comment", "head-closed", "body-first", "body-fragment",
               "doctype-long-comment", "doctype-long-script", "doctype-long-style"}   \* one token of > 4096 bytes before the declaration
 BomsH == {"none", "utf-8"}
 LimitRel == {"zero", "default", "just-past"}
